@@ -26,7 +26,7 @@ CASE_IDS = ('Safe_Stop', 'safe_stop', 'SAFE_STOP', 'stopOnBumper', 'stoponbumper
 WORDY_NAMES = ('min', 'max', 'len', 'log', 'sum', 'abs', 'int', 'sqrt')
 
 NUM_LITS = ('0', '1', '2', '3', '0.5', '1.5', '4', '10', '1.0', '2.0', '255', '360', '1000', '0.1', '3.14159', '1e3', '2147483648',
-            '0.2', '0.7', '1.1', '0.9')
+            '0.2', '0.7', '1.1', '0.9', '.5', '5.', '2.e3')
 STR_LITS = ('""', '"a"', '"ab"')
 
 # String contents as people write them: escapes of every kind (lark's ESCAPED_STRING admits a
@@ -436,7 +436,7 @@ class ExprGen:
         a = self.boolean(d + 1)
         if s.coin('trigb', self.trig_bias):
             c = s.choose('trigbkind', 17)
-            if c >= 13 and self.allow_quant and d + 2 < self.max_depth:
+            if c >= 14 and self.allow_quant and d + 2 < self.max_depth:
                 # sibling quantifiers over the same domain, same kind
                 dom = self.num_compound(d + 2)
                 self.force_quantifier = s.pick('sibq', ('forall', 'exists'))
@@ -450,7 +450,26 @@ class ExprGen:
                     extra = ('bin', s.pick('sibrel', RELOPS + EQOPS), ('var', q1[2]), self.num_lit())
                     q2 = (q2[0], q2[1], q2[2], q2[3], ('bin', s.pick('sibconn', ('and', 'or')), q2[4], extra))
                 return ('bin', op, q1, q2)
-            if c >= 11:
+            if c == 13 or (c == 4 and s.coin('chainpool', 0.5)):
+                # a chain of 4-6 members drawn, with repetition, from two or three terms and their
+                # negations, nested either way: duplicates for the set-based de-duplication to find,
+                # negations in every position the iteration order can put them
+                basis = [a, self.boolean(d + 2)] + ([self.bool_leaf()] if s.coin('chain3', 0.5) else [])
+                members = []
+                for _ in range(s.randint('chainlen', 4, 6)):
+                    m = s.pick('chainm', basis)
+                    members.append(('un', 'not', m) if s.coin('chainneg', 0.35) else m)
+                members[s.choose('chaindup', len(members) - 1) + 1] = members[0]
+                t = members[0]
+                if s.coin('chainright', 0.5):
+                    t = members[-1]
+                    for m in reversed(members[:-1]):
+                        t = ('bin', op, m, t)
+                else:
+                    for m in members[1:]:
+                        t = ('bin', op, t, m)
+                return t
+            if c in (11, 12):
                 return ('bin', op, a, variant(s, a)) if c == 11 else ('bin', op, ('un', 'not', a), variant(s, a))
             if c >= 8:
                 # two comparisons over the same operands, related by their operators
